@@ -50,6 +50,9 @@ CHECKS = {
  'C06': dict(cat='exploration', tech='symbolic token stream (lazy choice variables, depth-first exhaustive) through the real parser, loader and VM; z3 regex lemma for lexer totality',
    text='After a fixed preamble (macro, string macro, variable, function, routine) every sequence of 3 tokens (quick; 5 in thorough, plus 1200 seeded 4-token families in quick) over a 92-word alphabet (all keywords, registers, names, literals, time patterns, operators/brackets, comment, garbage, internal token-class names, case variants) is compiled: no exception, accept or rejection with a line-numbered message, no acceptance before all tokens are read, accepted programs load and run without an internal fault. 30 documented rule breakers in 4 contexts are rejected and leave the job without a program. Token deletion/duplication/swap/truncation/replacement at every position of 12 valid scripts. z3 lemma: every non-blank ASCII string is covered by the lexer\'s last alternative.',
    note='Tokens are drawn lazily (one path covers all continuations after the parser stops reading). Script-level run-time errors (division by zero, type confusion of script values) are not counted as internal faults. Inputs longer than the bound and non-ASCII bytes are outside.', ref='4/C06'),
+ 'C16': dict(cat='exploration', tech='z3 regular-expression queries over the lexer\'s own regexes (rx2z3), witnesses replayed through the real lexer/compiler/VM; choice-variable layouts; symbolic values for brace equivalence',
+   text='z3 regex lemmas on the live lexer regexes (no earlier alternative can match at the start of an identifier; every quote-free content up to 8 chars is in the string language; every NUMBER text converts). Solver-enumerated identifiers up to 8 chars in the region table look-ups can affect (case variants of all words in the lexer tables, minus documented reserved words) and solver witnesses outside it are used as variable, macro, parameter and routine names in compiled and executed scripts. Re-layout of 10 scripts: every token adjacency with every separator (incl. comments and no space next to operators/braces/brackets), seeded whole layouts and abbreviations give the identical instruction listing; call brackets identical listing; braces round one value same behaviour for all (symbolic) values in 9 positions.',
+   note='ASCII; identifier length <= 8. Known finding: a string ending in a backslash followed by another quote on the same line (conflicts with the tested \\" escape). The classification structure (tables then regex cascade) is read from the code; witnesses guard it.', ref='4/C16'),
 }
 PENDING = {
 }
